@@ -121,13 +121,18 @@ theorem child_env [Bounded O] {maxC h : Nat} {es : List (Entry O)} (hes : ∀ e 
   exact ⟨this.1, this.2.1, (isEnvelope_iff _ _).mp this.2.2⟩
 
 theorem nnNode_spec [Bounded O] {order : List Rat → List Nat} (hO : OrderOK order) (px py : Rat)
-    (hv : ∀ o : O, (Bounded.bounds o).valid = true) {maxC : Nat} :
-    ∀ (n : Node O) (h : Nat), wfNode maxC h n = true → ∀ st, ∃ st',
+    {maxC : Nat} :
+    ∀ (n : Node O) (h : Nat), wfNode maxC h n = true →
+      (∀ o ∈ n.objs, (Bounded.bounds o).valid = true) → ∀ st, ∃ st',
       nnNode order px py n st = .ok st' ∧ NNPost px py (fun o => o ∈ n.objs) st st' := by
   intro n
   induction n using Node.induct with
   | h l v es ih =>
-    intro h hw st
+    intro h hw hv st
+    have hsub : ∀ {b : Box} {c : Node O}, Entry.child b c ∈ es → ∀ o ∈ c.objs, o ∈ (Node.mk l v es).objs := by
+      intro b c hm o ho
+      simp only [Node.objs_mk, List.mem_flatMap]
+      exact ⟨_, hm, by simpa [Entry.objs] using ho⟩
     have hw' := (wfNode_mk ..).mp hw
     obtain ⟨hv', hl, h1, hlen, hes⟩ := hw'
     rw [nnNode_mk]
@@ -176,7 +181,8 @@ theorem nnNode_spec [Bounded O] {order : List Rat → List Nat} (hO : OrderOK or
         (fun i hi st => by
           obtain ⟨b, c, hc⟩ := hchild i (hKsub i hi)
           obtain ⟨_, hwc, _⟩ := child_env hes hc
-          obtain ⟨st', e, p⟩ := ih b c (List.mem_of_getElem? hc) (h - 1) hwc st
+          obtain ⟨st', e, p⟩ := ih b c (List.mem_of_getElem? hc) (h - 1) hwc
+            (fun o ho => hv o (hsub (List.mem_of_getElem? hc) o ho)) st
           refine ⟨st', by simp only [hc]; exact e, p.congr ?_⟩
           intro o
           constructor
@@ -232,10 +238,11 @@ theorem nnNode_spec [Bounded O] {order : List Rat → List Nat} (hO : OrderOK or
             rw [ebk] at ek
             obtain ⟨_, hwck, henvk⟩ := child_env hes hck
             obtain ⟨x, hx, hxle⟩ := minMaxDist_spec px py henvk (by
-              intro x hx; obtain ⟨o', _, rfl⟩ := List.mem_map.mp hx; exact hv o')
+              intro x hx; obtain ⟨o', ho', rfl⟩ := List.mem_map.mp hx
+              exact hv o' (hsub (List.mem_of_getElem? hck) o' ho'))
             obtain ⟨ostar, hostar, rfl⟩ := List.mem_map.mp hx
             have hmono : minDist px py bk ≤ minDist px py (Bounded.bounds ostar) :=
-              minDist_mono px py (henvk.lo _ hx) (hv ostar)
+              minDist_mono px py (henvk.lo _ hx) (hv ostar (hsub (List.mem_of_getElem? hck) ostar hostar))
             have hkK : k ∈ K := by
               rw [hK]; unfold branches; simp only [if_true, hmm]
               rw [List.mem_filter]
@@ -246,7 +253,7 @@ theorem nnNode_spec [Bounded O] {order : List Rat → List Nat} (hO : OrderOK or
               linarith
             obtain ⟨d', o', hst', hd'⟩ := p1.best ostar ⟨k, hkK, bk, ck, hck, hostar⟩
             have hmonoj : minDist px py b ≤ minDist px py (Bounded.bounds o) :=
-              minDist_mono px py (henvc.lo _ (List.mem_map_of_mem hoe)) (hv o)
+              minDist_mono px py (henvc.lo _ (List.mem_map_of_mem hoe)) (hv o (hsub (List.mem_of_getElem? hc) o hoe))
             exact ⟨d', o', hst', by simp only [cdist] at hd' ⊢; linarith⟩
 
 end GeomV.C12
